@@ -62,6 +62,9 @@ def run(tier, seed):
                   "anti_extracted_processed", "anti_extracted_unprocessed", "remote_anti_sent", "early_remote_anti", "end_state_compared"):
             if hc.counters_nz(m, k) == 0:
                 raise vc.EngineError(f"vacuous: no execution with '{k}'")
+    # remote messages and remote anti-messages under EVERY delivery order (complete state spaces), real mpi.c send/receive paths
+    rreps_, rm_, rviol_ = hc.procr_part(PID, d, tier)
+    viol += rviol_
     n = vc.triage(PID, viol)
     cov = hc.coverage_from(m, reps, "anti_messages",
                            "as C01 with the atomic flag word of every message (lp/process.c) and the queue atomics as scheduling points, on "
@@ -73,6 +76,7 @@ def run(tier, seed):
                            "allocated buffer) plus E/K (an event annihilated too much or delivered twice changes the committed hashes); "
                            "non-trivial = execution with >= 1 local cancellation")
     cov["rule"] += ". " + hc.RACE_RULE
+    hc.add_procr(cov, rm_, rreps_)
     vc.write_evidence(PID, tier, "model_checking", cov,
                       ["releases inside msg_allocator.c itself (msg_allocator_on_gvt) are mirrored from the free_at_gvt calls, not observed",
                        "messages pending beyond the final GVT are legitimately discarded by msg_queue_fini",
@@ -83,6 +87,8 @@ def run(tier, seed):
 
 def replay(path):
     d = vc.fresh_dir(PID + "_replay")
+    if hc.is_procr_replay(path):
+        return vc.rsched_replay(hc.build_proc(d, name="h_procr", remote=True), path)
     if hc.is_race_replay(path):
         return vc.rsched_replay(hc.build(d, race=True), path)
     ranks = 2 if "/r" in path.split("/")[-1][:2] or os.path.basename(path).startswith("r") else 1
